@@ -677,16 +677,13 @@ def run_path(case, drv, _reclass=True):
         b = [b2f(x) for x in o['figures']['rx']['snr_01nm']]
         return len(a) == len(b) and all(abs(x - y) <= 1e-9 for x, y in zip(a, b))
     mixed = any(a['baud_rate'] == b['baud_rate'] and a['offset_mdb'] != b['offset_mdb'] for a in fitting for b in fitting)
-    f9_hit = False
+    same_rep, same_cur = same(rep), same(cur)
+    f9_hit = mixed and same_cur and not same_rep   # the implementation follows the loop as it is in the code (F9)
     if near:
         res.ill += 1
     else:
         res.compared += 3
-        if same(rep):
-            pass
-        elif mixed and same(cur):
-            f9_hit = True      # the implementation follows the loop as it is in the code, which differs from the repaired one
-        else:
+        if not same_rep and not f9_hit:
             res.mismatch('propagate_and_optimize_mode', {'kind': impl_kind, 'mode': impl_mode},
                          {'repaired': {k: rep[k] for k in ('kind', 'mode', 'prop')},
                           'current': {k: cur[k] for k in ('kind', 'mode', 'prop')}})
@@ -781,8 +778,9 @@ def run_path(case, drv, _reclass=True):
                 failures.append(msg)
     if failures:
         cls = 'unlisted'
-        if mixed and _reclass:
-            # F9 class: two candidate modes share the baud rate with different offsets AND the discrepancy disappears when
+        if f9_hit and _reclass:
+            # F9 class: two candidate modes share the baud rate with different offsets, the implementation does exactly what
+            # the loop documented as finding F9 does (faithful model `selectModeCurrent`), AND the discrepancy disappears when
             # the offsets are equalised (same library with every offset set to 0)
             c2 = copy.deepcopy(case)
             for m in c2['modes']:
@@ -790,8 +788,11 @@ def run_path(case, drv, _reclass=True):
             r2 = run_path(c2, drv, _reclass=False)
             if not r2.failures:
                 cls = F9
-        for f in failures:
-            res.fail(f if cls == 'unlisted' else 'F9 ' + f, cls=cls)
+        if cls == 'unlisted' and near and not (same_rep or same_cur):
+            res.ill += 1      # a cross judgement sits on a rounding tie: the outcome is not judged
+        else:
+            for f in failures:
+                res.fail(f if cls == 'unlisted' else 'F9 ' + f, cls=cls)
     res.nontrivial = bool(fitting)
     res.stats.update({f'auto_{reason or "served"}': 1, 'auto_modes': len(modes), 'auto_fitting': len(fitting),
                       'auto_pairs': len(pairs), 'auto_same_baud_different_offset': int(mixed),
